@@ -138,7 +138,17 @@ impl Manifest {
         let mut begin = false;
 
         for value in stream {
-            let value = value?;
+            let value = match value {
+                Ok(value) => value,
+                // A crash in the middle of an append leaves a torn record at the end of the file.
+                // It belongs to a transaction that was never acknowledged: stop replaying here.
+                // (The manifest is rewritten on boot, which drops the torn bytes.)
+                Err(e) if e.is_eof() => {
+                    warn!("manifest: find torn record at the end of file");
+                    break;
+                }
+                Err(e) => return Err(e.into()),
+            };
             match value {
                 ManifestOperation::Begin => begin = true,
                 ManifestOperation::End => {
